@@ -178,3 +178,11 @@ MODULES += [
      "roots": [("Goldilocks", n) for n in ["fromU64", "fromS64", "fromS32", "fromString", "fromScalar",
                                            "toU64", "toS64", "toS32", "toString"]]},
 ]
+
+# Goldilocks3::mulScalar(result, a, std::string): calls fromString three times (translated in mpz mode)
+MODULES += [
+    {"name": "ExtScalarGen", "ns": "Gen.ExtScalarGen", "ext": True, "mpz": True, "dispatch": False,
+     "imports": ["GoldilocksVerif.Isa.X86", "GoldilocksVerif.Model.Region", TRRT, "GoldilocksVerif.Model.TrMpz",
+                 "GoldilocksVerif.Gen.Scalar", "GoldilocksVerif.Gen.Ext", "GoldilocksVerif.Gen.ConvGen"],
+     "roots": [("Goldilocks3", "mulScalar")]},
+]
